@@ -1029,6 +1029,33 @@ impl Ctx {
                 self.race(c.parse().unwrap(), nw.parse().unwrap(), rounds.parse().unwrap());
                 return;
             }
+            ["fixture", name] => {
+                // start from a COPY of a data directory written by the pinned release (fixtures/c19/<name>):
+                // the harness takes over the id bookkeeping recorded with it and replays the recorded
+                // operations and answers (so that the model reaches the same state); SQLite only
+                if self.backend == Backend::Sqlite {
+                    let root = std::env::var("TSS_FIXTURES").expect("TSS_FIXTURES");
+                    let fx = std::path::PathBuf::from(root).join(name);
+                    let dst = self.data_dir().join("fixture-data");
+                    std::fs::create_dir_all(&dst).expect("fixture dir");
+                    for e in std::fs::read_dir(fx.join("data")).expect("fixture data") {
+                        let e = e.unwrap();
+                        std::fs::copy(e.path(), dst.join(e.file_name())).expect("fixture copy");
+                    }
+                    self.load_state(fx.join("ids.txt").to_str().unwrap());
+                    self.keep_dir = Some(dst);
+                    self.server = None;
+                    self.store = None;
+                    self.open(false);
+                    let txt = std::fs::read_to_string(fx.join("expected.trace")).expect("fixture trace");
+                    for line in txt.lines() {
+                        if (line.starts_with("OP ") && !line.starts_with("OP reset")) || line.starts_with("R ") {
+                            self.out.push(line.to_string());
+                        }
+                    }
+                }
+                return;
+            }
             ["subdir", name] => {
                 // the data directory gets a name of the operator's choosing (characters that mean
                 // something in a URI, a query or an SQL string included); SQLite only
